@@ -101,6 +101,21 @@ def rule_sorted(ctx):
     f = ctx.func('mchap.pedigree.mcmc.mcmc_sampler')
     ok = has(f.node, "_trace[_i, _j] = np.sort(_trace[_i, _j])")
     ctx.check(ok, 'R14.3/canonical', f.construct('sort'), "pedigree trace sorted per sample", "pedigree trace is no longer sorted", f.where())
+    relabel_vector(ctx, 'R14.3/monotone-relabel', "relabel vector is increasing (positions of the kept alleles), so sorted genotypes stay sorted",
+                   "relabel vector is no longer the increasing vector of kept positions (np.where(~mask)[0] or an equivalent)")
+
+
+def _kept_positions(lb):
+    """the term is the vector of positions where a mask holds, in increasing order and at index width: np.where(m)[0],
+    np.nonzero(m)[0], m.nonzero()[0], np.flatnonzero(m) - with nothing applied on top (a cast narrows allele numbers)"""
+    if lb[0] == 'idx' and lb[2] == ('const', 0) and lb[1][0] == 'call' and lb[1][1] in ('numpy.where', 'numpy.nonzero', '.nonzero') and len(lb[1][2]) == 1:
+        return True
+    if lb[0] == 'call' and lb[1] == 'numpy.flatnonzero' and len(lb[2]) == 1:
+        return True
+    return False
+
+
+def relabel_vector(ctx, rule, good, bad):
     for prog in ('call', 'call_pedigree'):
         f = ctx.func(f'mchap.application.{prog}.program.call_sample_genotypes')
         r = ctx.recon(f.qname)
@@ -110,9 +125,8 @@ def rule_sorted(ctx):
             lb = rl[0][2][1]
             while lb[0] == 'phi':
                 lb = lb[2]
-            ok = lb[0] == 'idx' and lb[2] == ('const', 0) and lb[1][0] == 'call' and lb[1][1] == 'numpy.where'
-        ctx.check(ok, 'R14.3/monotone-relabel', f.construct('labels'), "relabel vector is increasing (np.where), so sorted genotypes stay sorted",
-                  "relabel vector is no longer the increasing np.where(~mask)[0]", f.where())
+            ok = _kept_positions(lb)
+        ctx.check(ok, rule, f.construct('labels'), good, bad, f.where())
 
 
 def rule_incongruence_ploidy(ctx):
